@@ -28,6 +28,11 @@ def tasks(tier):
     # truncated lists (not the full space): a subset with a non-aufbau first determinant
     t.append((M, "ms_state", dict(norb=3, nu=2, nd=1, ref=1, subset=[8, 0, 4, 5], maxexc="min")))
     t.append((M, "ms_state", dict(norb=3, nu=2, nd=1, ref=0, subset=[2, 6, 7], maxexc="min")))
+    for ref in (0, 23, 11, 17, 5):
+        t.append((M, "ms_state", dict(norb=4, nu=2, nd=1, ref=ref, order="rev" if ref % 2 else "id")))
+    for ref in (35, 20):
+        t.append((M, "ms_state", dict(norb=4, nu=2, nd=2, ref=ref, restricted=True)))
+    t.append((M, "ms_state", dict(norb=4, nu=2, nd=2, ref=35)))
     if tier == "thorough":
         for ref in range(0, 24, 1):
             t.append((M, "ms_state", dict(norb=4, nu=2, nd=1, ref=ref)))
